@@ -166,6 +166,7 @@ thread_local! {
 }
 
 unsafe extern "C" {
+    fn malloc_trim(pad: usize) -> i32;
     fn write(fd: i32, buf: *const u8, n: usize) -> isize;
     fn open(path: *const u8, flags: i32, mode: u32) -> i32;
     fn ftruncate(fd: i32, len: i64) -> i32;
@@ -238,7 +239,7 @@ pub fn worker_main(check: &mut dyn CheckImpl, args: &[String]) -> ! {
         check.run_unit(tier, seed, u, &mut acc, &mut viols);
         if t_unit.elapsed().as_secs() >= 5 {
             // not part of any decision or hash: a hint for whoever tunes the tiers
-            eprintln!("slow unit {u} of {}: {:.1}s", check.id(), t_unit.elapsed().as_secs_f64());
+            eprintln!("slow unit {u} of {}: {:.1}s (live heap {} MB)", check.id(), t_unit.elapsed().as_secs_f64(), alloc::LIVE.load(Ordering::Relaxed) >> 20);
             acc.bump("units_slower_than_5s");
         }
         acc.units_done += 1;
@@ -252,6 +253,12 @@ pub fn worker_main(check: &mut dyn CheckImpl, args: &[String]) -> ! {
         since += 1;
         if since >= 32 {
             since = 0;
+            unsafe {
+                malloc_trim(0);
+            }
+            if std::env::var("SIM_TRACE_LEAKS").is_ok() {
+                eprintln!("unit {u}: live heap {} MB", alloc::LIVE.load(Ordering::Relaxed) >> 20);
+            }
             writeln!(o, "{}", json!({"t":"progress","next": u + stride, "acc": acc.to_json()})).unwrap();
         }
         o.flush().unwrap();
@@ -306,6 +313,9 @@ fn run_worker(prop: &str, tier: Tier, seed: u64, from: u64, to: u64, stride: u64
             &stride.to_string(),
             crashfile,
         ])
+        // scenarios spawn many short-lived threads: without a cap glibc keeps one malloc arena per thread
+        // and never returns their free memory (a thorough run grew to 4 GiB per worker and was OOM-killed)
+        .env("MALLOC_ARENA_MAX", "2")
         .stdout(Stdio::piped())
         .stderr(Stdio::piped())
         .spawn()
